@@ -123,6 +123,9 @@ func c03EvalForm(c *fw.Ctx, text string, safe bool, vals []poolVal) {
 	}
 }
 
+// argument-list shapes, well-formed and not, for every function name
+var c03ArgShapes = []string{"F()", "F(1)", "F(1,)", "F(1,2)", "F(1,2,)", "F(,)", "F(,1)", "F(1,,2)", "F((1))", "F(1,(2,3))", "F(F(1,),2)", "1+F(2,)", "F(1,2,3,)", "F(a,)", "F(a,b,)[0]", "-F(1,)", "F(1,) IS NULL", "F(", "F(1", "F(1,", "F)"}
+
 // (c) templates
 var c03TmplLexemes = []string{"{{", "}}", "{{{", "}}}", "#", "/", "^", "!", "if", "unless", "a", "b", " ", "x", "'"}
 var c03TmplChars = []rune("{}#/a '\U0001F600")
@@ -221,6 +224,29 @@ func init() {
 					c03EvalForm(c, name+"("+strings.Join(args, ",")+")", safe, vals)
 				}, Repr: func(i int64) string {
 					return fmt.Sprintf("%s function %s with argument list #%d", mgrName(i%2 == 1), c08Names[int(i/2%nf)], i/(2*nf))
+				}},
+				{Name: "call-shapes", N: nf * int64(len(c03ArgShapes)) * 2, Run: func(c *fw.Ctx, i int64) {
+					name := c08Names[int(i/2)%len(c08Names)]
+					if name == "Null" {
+						name = "\"Null\""
+					}
+					text := strings.Replace(c03ArgShapes[int(i/2)/len(c08Names)], "F", name, 1)
+					calc := calculator.NewExpressionCalculator()
+					calc.SetVariantOperations(opsManager(i%2 == 1))
+					var r *variants.Variant
+					var err, serr error
+					pv := fw.Try(func() {
+						if serr = calc.SetExpression(text); serr == nil {
+							r, err = calc.Evaluate()
+						}
+					})
+					c.Eval(1)
+					c.Nontrivial()
+					if pv != nil || (serr == nil && (r == nil) == (err == nil)) {
+						c.Violation("call-shape-crashes", "%s %q: panic %v, SetExpression %s, result=%v err=%v", mgrName(i%2 == 1), text, pv, errStr(serr), r != nil, err)
+					}
+				}, Repr: func(i int64) string {
+					return fmt.Sprintf("%s call shape %q for %s", mgrName(i%2 == 1), c03ArgShapes[int(i/2)/len(c08Names)], c08Names[int(i/2)%len(c08Names)])
 				}},
 				{Name: "functions-after-table-edits", N: nf * 3, Run: func(c *fw.Ctx, i int64) {
 					// evaluate every function after entries were removed from / added to the calculator's own table
